@@ -31,7 +31,7 @@ pub const ALPHA_SRC: &str = "(def (Report (volatile acked 0) (rtt 0)) (ctl 10) (
         (when true (:= Report.acked (+ Report.acked Ack.bytes_acked)) (:= Report.rtt Flow.rtt_sample_us) (:= loc 5) (fallthrough))
         (when (> Micros 3000) (report) (:= Micros 0))";
 
-pub const PROGS: [(&str, &str); 8] = [
+pub const PROGS: [(&str, &str); 9] = [
     ("alpha", ALPHA_SRC),
     ("beta", "(def (Report (volatile loss 0) (volatile sacked 0) (volatile inflight 0)) (thresh 100))
         (when true (:= Report.loss Ack.lost_pkts_sample) (:= Report.inflight Flow.packets_in_flight) (fallthrough))
@@ -46,13 +46,17 @@ pub const PROGS: [(&str, &str); 8] = [
         (when (> Micros c) (report) (:= Micros 0))"),
     // the same text as alpha under another name: two compilations, two uids, one image
     ("alpha2", ALPHA_SRC),
+    // shares the control names a, b, c, ctl with delta and alpha, at other indices and volatilities
+    ("epsilon", "(def (Report (volatile m2 0)) (volatile c 30) (b 20) (a 10) (ctl 9))
+        (when true (:= Report.m2 (+ a b)) (fallthrough))
+        (when (> Micros c) (report) (:= Micros 0))"),
 ];
 
 /// names whose lookup result is part of a program's descriptor
-pub const PROBE_NAMES: [&str; 25] = [
+pub const PROBE_NAMES: [&str; 26] = [
     "Report.acked", "Report.rtt", "ctl", "vctl", "loc", "Report.loss", "Report.sacked", "Report.inflight", "thresh",
     "Report.x", "k", "Report.one", "c1", "Report.two", "Report.three", "c2", "Report.m", "a", "b", "c",
-    "Cwnd", "Rate", "Micros", "Ack.bytes_acked", "Reported",
+    "Cwnd", "Rate", "Micros", "Ack.bytes_acked", "Reported", "Report.m2",
 ];
 pub const EXTRA_FIELD_NAMES: [&str; 6] = ["__eventFlag", "__shouldReport", "nosuch", "Flow.was_timeout", "__x", ""];
 
@@ -293,7 +297,21 @@ impl RecFlow {
                 Cmd::GO(p, field) => {
                     let line = match rep {
                         None => "CMD skip".to_string(),
-                        Some(r) => match self.own.get(p) { None => "GET NOSCOPE".into(), Some(sc) => gf_str(r.get_field(field, sc)) },
+                        Some(r) => match self.own.get(p) {
+                            None => "GET NOSCOPE".into(),
+                            Some(sc) => {
+                                // also through a compilation made just now, right after a failed one (a source that
+                                // is not UTF-8, one that does not parse): it is a different compilation all the same
+                                let first = gf_str(r.get_field(field, sc));
+                                let _ = catch(|| portus::lang::compile(&[0x28, 0xff, 0xfe, 0x29], &[]).is_ok());
+                                let _ = catch(|| portus::lang::compile(b"(def", &[]).is_ok());
+                                let fresh = PROGS.iter().find(|(n, _)| *n == p.as_str()).and_then(|(_, src)| catch(|| portus::lang::compile(src.as_bytes(), &[]).ok()).flatten());
+                                match fresh {
+                                    Some((_, sc2)) => { let second = gf_str(r.get_field(field, &sc2)); if second == first { first } else { format!("{} BUT-FRESH-COMPILATION-GIVES {}", first, second.replace(' ', "-")) } }
+                                    None => first,
+                                }
+                            }
+                        },
                     };
                     self.ctx.lock().unwrap().log.push(line);
                 }
@@ -482,6 +500,9 @@ pub fn table_images() -> (Vec<(usize, Vec<u8>)>, HashMap<String, Scope>) {
     let mut images = vec![];
     let mut own = HashMap::new();
     for (i, (name, src)) in PROGS.iter().enumerate() {
+        // failed compilations in between (not UTF-8; not a program) must not disturb the uids of the others
+        let _ = catch(|| portus::lang::compile(&[0x28, 0xff, 0xfe, 0x29], &[]).is_ok());
+        let _ = catch(|| portus::lang::compile(b"(def", &[]).is_ok());
         if let Some(Ok((bin, sc))) = catch(|| portus::lang::compile(src.as_bytes(), &[])) {
             if let Ok(b) = bin.serialize() { images.push((i, b)); }
             // for duplicate names keep the first (dup-named programs are not used with own scopes)
@@ -624,16 +645,16 @@ fn gen_fields(r: &mut Rng, n: usize) -> String {
 fn gen_ctl_fields(r: &mut Rng, prog: &str, n: usize) -> String {
     // mostly controllable names of that program
     let pool: &[&str] = match prog { "alpha" | "alpha2" => &["ctl", "vctl", "Cwnd", "Rate"], "beta" => &["thresh", "Cwnd"], "gamma" => &["k", "Rate"],
-        "delta" => &["a", "b", "c", "Cwnd", "Rate"], _ => &["c1", "c2", "Cwnd"] };
+        "delta" => &["a", "b", "c", "Cwnd", "Rate"], "epsilon" => &["a", "b", "c", "ctl", "Rate"], _ => &["c1", "c2", "Cwnd"] };
     if n == 0 { return "-".into(); }
     (0..n).map(|_| format!("{}={:x}", if r.chance(9, 10) { *r.pick(pool) } else { *r.pick(&PROBE_NAMES) }, r.u32b())).collect::<Vec<_>>().join("&")
 }
 fn gen_cmds(r: &mut Rng, report: bool) -> String {
     let n = r.below(4);
     if n == 0 { return "-".into(); }
-    let progs = ["alpha", "beta", "gamma", "dup", "delta", "alpha2", "nosuchprog", "bad"];
+    let progs = ["alpha", "beta", "gamma", "dup", "delta", "alpha2", "epsilon", "nosuchprog", "bad"];
     (0..n).map(|_| {
-        let p = if r.chance(5, 6) { *r.pick(&progs[..6]) } else { *r.pick(&progs) };
+        let p = if r.chance(5, 6) { *r.pick(&progs[..7]) } else { *r.pick(&progs) };
         let k = if report { r.below(6) } else { r.below(3) };
         let nf = r.below(4) as usize;
         match k {
@@ -647,7 +668,7 @@ fn gen_cmds(r: &mut Rng, report: bool) -> String {
 
 fn report_fields_of(p: usize) -> &'static [&'static str] {
     match p { 0 | 7 => &["Report.acked", "Report.rtt"], 1 => &["Report.loss", "Report.sacked", "Report.inflight"], 2 => &["Report.x"],
-        3 => &["Report.one"], 4 => &["Report.two", "Report.three"], _ => &["Report.m"] }
+        3 => &["Report.one"], 4 => &["Report.two", "Report.three"], 8 => &["Report.m2"], _ => &["Report.m"] }
 }
 
 /// Structured generation: tracks which (address, flow id) pairs are live so that most
@@ -671,6 +692,7 @@ pub fn gen_case(r: &mut Rng, adversarial: bool, faults: bool) -> String {
         let mut ps: Vec<usize> = vec![];
         for p in [0usize, 1, 2, 3, 4, 6] { if r.chance(1, 2) { ps.push(p); } }
         if r.chance(1, 3) { ps.push(7); }
+        if r.chance(1, 2) { ps.push(8); }
         if ps.contains(&3) && ps.contains(&4) { ps.retain(|x| *x != 4); }   // one map cannot hold a name twice
         if *i == 0 && ps.is_empty() { ps.push(0); }
         if r.chance(1, 80) { ps.push(5); }
@@ -693,6 +715,14 @@ pub fn gen_case(r: &mut Rng, adversarial: bool, faults: bool) -> String {
     if r.chance(1, 3) { let nf = r.range(1, 3) as usize; repc.push(format!("UF:{}:{}", if mname == "dup" { "alpha" } else { mname }, gen_ctl_fields(r, mname, nf))); }
     if r.chance(1, 4) { let o = *r.pick(&offered); let nf = r.below(3) as usize; repc.push(format!("SP:{}:{}", PROGS[o].0, gen_ctl_fields(r, PROGS[o].0, nf))); }
     if r.chance(1, 4) { let g = gen_cmds(r, true); if g != "-" { repc.push(g); } }
+    // the same control name under two programs that place it differently: update, switch, update
+    if offered.contains(&6) && offered.contains(&8) && r.chance(1, 2) {
+        let n = *r.pick(&["a", "b", "c"]);
+        repc.push(format!("UF:delta:{}={:x}", n, r.u32b()));
+        repc.push("SP:epsilon:-".to_string());
+        repc.push(format!("UF:epsilon:{}={:x}", n, r.u32b()));
+        repc.push("SP:delta:-".to_string());
+    }
     let beh = format!("new={} rep={}", if newc.is_empty() { "-".to_string() } else { newc.join("+") }, if repc.is_empty() { "-".to_string() } else { repc.join("+") });
     // events
     let nev = r.range(2, 16);
@@ -812,7 +842,26 @@ pub fn run_ignore_stream(tier: &str, seed: u64, out: &mut dyn Write) {
         let secs: Vec<&str> = base.split(" | ").collect();
         let mut evs: Vec<String> = if secs[4].trim() == "-" { vec![] } else { secs[4].split(" ; ").map(|x| x.to_string()).collect() };
         let k = r.range(1, 3);
-        for _ in 0..k { let pos = r.below(evs.len() as u64 + 1) as usize; evs.insert(pos, gen_junk(&mut r)); }
+        for _ in 0..k {
+            // a datagram of its own, or a message put in front of / between the messages of an existing datagram
+            // (only short datagrams, so that the receive buffer still holds all of it, and only in front:
+            // behind a malformed message the junk would become part of that message's payload)
+            let dgrams: Vec<usize> = evs.iter().enumerate().filter(|(_, e)| e.starts_with('D') && e.contains(':') && e.matches('+').count() < 4 && e.len() < 600).map(|(i, _)| i).collect();
+            if !dgrams.is_empty() && r.chance(1, 2) {
+                let i = *r.pick(&dgrams);
+                let (head, body) = evs[i].split_once(':').map(|(a, b)| (a.to_string(), b.to_string())).unwrap();
+                let mut ms: Vec<String> = body.split('+').map(|x| x.to_string()).collect();
+                let junk = match r.below(3) {
+                    0 => { let t = *r.pick(&[6u8, 7, 9, 200, 255]); let kk = *r.pick(&[0usize, 0, 1, 3, 4, 5, 8]); let mut b = vec![t, 0, 8 + kk as u8, 0]; b.extend(r.bytes(4 + kk)); format!("RAW:{}", hex(&b)) }
+                    1 => "MS:77:xf0000001:0:-".to_string(),
+                    _ => format!("MS:77:xf0000009:2:{:x},{:x}", r.u64b(), r.u64b()),
+                };
+                ms.insert(0, junk);
+                evs[i] = format!("{}:{}", head, ms.join("+"));
+            } else {
+                let pos = r.below(evs.len() as u64 + 1) as usize; evs.insert(pos, gen_junk(&mut r));
+            }
+        }
         let variant = format!("{} | {}", secs[..4].join(" | "), evs.join(" ; "));
         let arg = format!("{} ## {}", base, variant);
         let res = eval_ignore(&arg);
